@@ -1,6 +1,8 @@
 //! Property-based verification harness for saveoursecrets/sdk.
 pub mod framework;
 pub mod secrets;
+pub mod alloc_count;
+pub mod engine_codec;
 pub mod engine_acct;
 pub mod engine_evlog;
 pub mod engine_http;
@@ -15,6 +17,8 @@ pub mod prop_c08_scan;
 pub mod prop_c10;
 pub mod prop_c11;
 pub mod prop_c12;
+pub mod prop_c14;
+pub mod prop_c15;
 
 use framework::PropertyDef;
 
@@ -29,11 +33,24 @@ pub fn registry() -> Vec<PropertyDef> {
         prop_c10::def(),
         prop_c11::def(),
         prop_c12::def(),
+        prop_c14::def(),
+        prop_c15::def(),
     ]
 }
 
 /// Internal process sub-modes used by engines (crash children, decoder workers).
 pub fn internal_mode(mode: &str, _args: &[String]) -> i32 {
-    eprintln!("unknown mode {mode}");
-    2
+    match mode {
+        // decoder worker of engine E (C15): requests on stdin, answers on stdout
+        "codec-worker" => prop_c15::worker_main(),
+        // sensitivity self-test of the C14 oracles (mutant codecs, projection edits)
+        "codec-selftest" => {
+            framework::install_quiet_panic_hook();
+            engine_codec::selftest() + prop_c15::selftest()
+        }
+        _ => {
+            eprintln!("unknown mode {mode}");
+            2
+        }
+    }
 }
